@@ -5,7 +5,7 @@ from props import _parser_lib as L, _parser_gen as G
 
 PROP = "C02"
 TRUSTED = [
-    "Model/Lexer.lean + Model/Parser.lean tied by the parser.parse correspondence on the rendered strings of all 44 templates "
+    "Model/Lexer.lean + Model/Parser.lean tied by the parser.parse correspondence on the rendered strings of all 48 templates "
     "(and by C14's malformed stream); Gen.convertyear / Gen.adjustAmpm are re-translated from source on every run",
     "the template printers of the oracle are harness/props/_parser_gen.py (Python); the Lean printer of the proved family "
     "(Spec/ParserTemplates.lean, ISO-like YYYY-MM-DD[T ]HH:MM:SS) is compared with it on every run (parser.render op)",
@@ -18,7 +18,7 @@ ASSUMPTIONS = [
     "a year, an AM/PM marker or an `s` unit is separated from a following offset / Z by a space (part of the templates)",
     "only the offset of a ' UTC' / 'Z' result is required (tz.UTC or tzlocal() when the process zone is itself called UTC)",
 ]
-RULE = ("44 templates (ISO-like T/space, 1-6 fraction digits dot/comma, compact 8/12/14 digits, ctime, RFC 2822, month-name forms, "
+RULE = ("48 templates (ISO-like T/space, 1-6 fraction digits dot/comma, compact 8/12/14 digits, ctime, RFC 2822, month-name forms, "
         "NNhNNmNNs, US/European/year-first numeric under the matching flags, 12-hour forms incl. 12 AM/12 PM, two-digit years) "
         "x boundary-biased datetimes (years 1, 2, 31, 32, 68, 69, 99, 100, 101, 999, 1000, 9998, 9999; day 31 / month end; "
         "midnight/noon; µs 0/1/999999) x 21 offset spellings x TZ settings; distinct = distinct (template, datetime, offset, TZ); "
@@ -78,10 +78,12 @@ def correspondence(ctx):
             "parse_render_iso_offsets: iso_[T|sp]_[s|us|dot_f1..f6|comma_f1..f6|min] x {none, Z, ' Z', ' UTC', +-HH, +-HHMM, +-HH:MM, "
             "each also after a space}; parse_render_compact: compact_T_s, compact_nosep_s, compact_T_min, compact_date; "
             "parse_render_monthname: ctime, rfc2822 (x every offset), 'Month D, YYYY', d_Mon_Y, dd-Mon-Y (year >= 100 except "
-            "dd-Mon-Y); parse_render_ampm: 'YYYY-MM-DD H:MM AM|PM'; parse_render_hms_letters: hms_letters")
+            "dd-Mon-Y); parse_render_ampm: 'YYYY-MM-DD H:MM AM|PM'; parse_render_hms_letters: hms_letters; parse_render_numeric: "
+            "us_slash_date (MM/DD/YYYY), eu_slash_date (DD/MM/YYYY, dayfirst), yf_slash_date (YYYY/MM/DD), us_yy, eu_yy_date, yf_yy "
+            "(two-digit years within -50..+49 of _year)")
         ctx.hist["templates_correspondence_only"] = (
-            "parse_render_partial: us_slash, us_dash_date, eu_slash, eu_dot, yf_slash, yf_dot_date, us_yy, eu_yy, yf_yy, dd-Mon-yy, "
-            "yymmdd (family 7); long_ampm, ampm_short, ampm_hour, ampm_hour_tight, hm_letters, compact_T_us, d_Month_Y_hm, "
+            "parse_render_partial: us_slash / eu_slash / yf_slash (numeric date FOLLOWED BY a time), us_dash_date, eu_dot, yf_dot_date, "
+            "eu_yy (with time), dd-Mon-yy, yymmdd; long_ampm, ampm_short, ampm_hour, ampm_hour_tight, hm_letters, compact_T_us, d_Month_Y_hm, "
             "Mon_d_Y_hms; offsets after the non-ISO templates other than rfc2822")
         # the Lean printers of the proved families against independent Python printers
         rr = ctx.subrng("rend")
@@ -102,7 +104,7 @@ def correspondence(ctx):
             d = G.boundary_dt(rr)
             dl = "[%d,%d,%d,%d,%d,%d,%d]" % (d.year, d.month, d.day, d.hour, d.minute, d.second, d.microsecond)
             ow, os_ = offs()
-            kind = rr.choice(["isox", "isox", "compact", "mon", "mon", "ampm", "hmsl"])
+            kind = rr.choice(["isox", "isox", "compact", "mon", "mon", "ampm", "hmsl", "num"])
             date = "%04d-%02d-%02d" % (d.year, d.month, d.day)
             hms = "%02d:%02d:%02d" % (d.hour, d.minute, d.second)
             if kind == "isox":
@@ -121,6 +123,12 @@ def correspondence(ctx):
                      "%s %d, %04d" % (G.MONL[d.month - 1], d.day, d.year), "%d %s %04d" % (d.day, G.MON[d.month - 1], d.year),
                      "%02d-%s-%04d" % (d.day, G.MON[d.month - 1], d.year)][f]
                 reqs.append("parser.rend mon [%d,%d] %s %s" % (f, w, dl, ow if f == 1 else "n")); exp.append(e)
+            elif kind == "num":
+                f = rr.randint(0, 5); yy = d.year % 100
+                e = ["%02d/%02d/%04d" % (d.month, d.day, d.year), "%02d/%02d/%04d" % (d.day, d.month, d.year),
+                     "%04d/%02d/%02d" % (d.year, d.month, d.day), "%02d/%02d/%02d" % (d.month, d.day, yy),
+                     "%02d/%02d/%02d" % (d.day, d.month, yy), "%02d/%02d/%02d" % (yy, d.month, d.day)][f]
+                reqs.append("parser.rend num [%d] %s n" % (f, dl)); exp.append(e)
             elif kind == "ampm":
                 reqs.append("parser.rend ampm [] %s n" % dl); exp.append("%s %d:%02d %s" % (date, G.h12(d.hour), d.minute, G.ap(d.hour)))
             else:
@@ -131,7 +139,13 @@ def correspondence(ctx):
                 ctx.mismatch("parser.rend", q, e, g)
         # and the implementation parses exactly these renderings as the theorems say (offset descriptor included)
         sub = [(q, e) for q, e in zip(reqs, exp)][: ctx.budget(1500, 15000)]
-        calls = [L.Call(e, default=datetime.datetime(2001, 1, 1)) for _, e in sub]
+        def flags(q):
+            if q.startswith("parser.rend num [1]") or q.startswith("parser.rend num [4]"):
+                return {"dayfirst": True}
+            if q.startswith("parser.rend num [5]"):
+                return {"yearfirst": True}
+            return {}
+        calls = [L.Call(e, default=datetime.datetime(2001, 1, 1), **flags(q)) for q, e in sub]
         model = L.model_answers(ctx, calls)
         for c, m in zip(calls, model):
             i, _, _ = L.run_impl(c)
